@@ -193,6 +193,19 @@ CHECKS["C20"] = dict(
     technique="TLA+ position semantics + tokeniser spec model-checked with TLC; generated templates, truncations and injections replayed into Env.Parse",
     design="3/C20")
 
+CHECKS["C19"] = dict(
+    text="spec/LexChan.tla models the tokeniser goroutine, the parser as an arbitrary consumer and the unbuffered channel (TLC: "
+         "deadlock freedom, LexerExits and ParserNeverStuck under weak fairness for every token stream up to length 4; the defect "
+         "variants NoDrain and NoCloseOnError must be rejected). spec/props/C19.tla unfolds call histories (loader x outcome x API) "
+         "into Open/Close/Spawn/ParserReturn/LexerExit steps and TLC checks Returned ~> Clean (negative configs for a missing "
+         "drain and unclosed files must fail), printing the histories; each history is replayed in a fresh worker with garbage "
+         "collection disabled, recording hook events and goroutine/tokeniser/descriptor counts, and TLC (C19_Trace.tla) accepts a "
+         "history iff every started tokeniser exited and all counts are back at quiescence.",
+    note="Trusted: runtime.NumGoroutine, runtime.Stack and /proc/self/fd as observation instruments; a 2 s poll bound (blocked goroutines "
+         "never leave, exiting ones leave in microseconds). Without the verif hooks only the counts are checked.",
+    technique="TLA+ model of goroutines/channel/handles model-checked with TLC (liveness); TLC-generated histories replayed; TLC trace validation",
+    design="3/C19")
+
 NOT_YET = {}
 
 props = [json.loads(l)["id"] for l in open(os.path.join(VERIF, "properties.jsonl"))]
